@@ -250,19 +250,27 @@ def run_one(m, jobs):
         if rc:
             res["status"] = "does_not_import"
             return res
-        for attempt in range(8):
-            rc, out = sh(SUITE, cwd=d, env=env, timeout=1500)
-            tail = out.strip().splitlines()[-1] if out.strip() else ""
-            failed = [l for l in out.splitlines() if l.startswith("FAILED")]
-            # tests/e2e binds a fixed TCP port: suites running in parallel (this sweep, the
-            # seeded-change runs) collide there - a fast failure of only that test is retried
-            if "193 passed" in tail or not failed or not all("tests/e2e/" in l for l in failed) \
-                    or "Timeout" in out:
-                break
-            import time as _t
-            _t.sleep(0.7 * (attempt + 1))
+        # tests/e2e binds a fixed TCP port: suites running in parallel (this sweep, the
+        # seeded-change runs) collide there. Everything else runs in parallel; the e2e file runs
+        # on its own, one at a time across all processes (flock)
+        rc, out = sh(SUITE + ["--ignore=tests/e2e"], cwd=d, env=env, timeout=1500)
+        tail = out.strip().splitlines()[-1] if out.strip() else ""
         res["suite"] = tail[:80]
-        if "193 passed" not in tail:
+        if "192 passed" not in tail:
+            res["status"] = "killed_by_suite"
+            return res
+        import fcntl
+        with open("/tmp/verif-e2e.lock", "w") as lk:
+            fcntl.flock(lk, fcntl.LOCK_EX)
+            for attempt in range(4):  # (a seeded-change run outside this lock may hold the port)
+                rc, out = sh(SUITE + ["tests/e2e"], cwd=d, env=env, timeout=600)
+                tail2 = out.strip().splitlines()[-1] if out.strip() else ""
+                if "1 passed" in tail2 or "Address already in use" not in out:
+                    break
+                import time as _t
+                _t.sleep(1.0 + attempt)
+        res["suite"] = (tail + " + e2e: " + tail2)[:120]
+        if "1 passed" not in tail2:
             res["status"] = "killed_by_suite"
             return res
         env2 = dict(os.environ, VERIF_REPO=d, VERIF_JOBS=str(jobs))
